@@ -21,7 +21,7 @@ func init() {
 			"(R3) every wait before the kill is a select that also listens on the timer; the only unbounded receive is the one after Kill; " +
 			"(R4) NewStream never assigns the command's Stdout/Stderr/Stdin fields to Go writers/readers: it uses the pipe methods and its own forwarding goroutine, so os/exec's Wait is not held hostage by descendants that keep the pipe open (golang/go#23019). " +
 			"Not decided: that the OS delivers the signals; uninterruptible processes.",
-		Assumptions: []string{"Process.Kill terminates the process; exec.Cmd.Wait returns once the process exited when no Cmd-managed copy goroutines exist"},
+		Assumptions:  []string{"Process.Kill terminates the process; exec.Cmd.Wait returns once the process exited when no Cmd-managed copy goroutines exist"},
 		ThoroughGOOS: []string{"windows", "darwin"},
 		Run:          runC35,
 	})
